@@ -178,6 +178,11 @@ ANG = ["degs(30.0)", "rads(1.0)", "turns(0.25)", "ang()"]
 NUM = ["1.0", "1.0f32", "30"]
 AN = ANG + NUM
 isang = lambda a: a in ANG
+# the geometry crate's angle-taking API: the sweep of a surface of revolution
+LATHE = "let mut l = retrofire_geom::solids::Lathe::new([vertex(pt2(1.0, 0.0), retrofire_core::math::vec::vec2(1.0, 0.0))], 4); "
+t("Lathe.az_range = a..b", LATHE + "l.az_range = {0}..{1}; let _ = l;", [AN, AN], lambda a, b: isang(a) and isang(b))
+t("Lathe.az_range.end = a", LATHE + "l.az_range.end = {0}; let _ = l;", [AN], isang)
+t("let f32 = Lathe.az_range.start (never)", LATHE + "let _: {0} = l.az_range.start;", [["f32", "Angle"]], lambda a: a == "Angle")
 t("rotate_x(angle)", "let _ = rotate_x({0});", [AN], isang)
 t("rotate_y(angle)", "let _ = rotate_y({0});", [AN], isang)
 t("rotate_z(angle)", "let _ = rotate_z({0});", [AN], isang)
